@@ -39,6 +39,7 @@ func init() {
 		"fmt.Print": func(x *Exec, fr *frame, fn *ssa.Function, a []Value) Value {
 			return Tuple{x.ts.BV(64, 0), Iface{}}
 		},
+		"time.After": func(x *Exec, fr *frame, fn *ssa.Function, a []Value) Value { return ChanV{} },
 		"time.Sleep": func(x *Exec, fr *frame, fn *ssa.Function, a []Value) Value { return nil },
 		"strconv.FormatBool": func(x *Exec, fr *frame, fn *ssa.Function, a []Value) Value {
 			return x.formatV(a[0], 'v')
@@ -195,20 +196,44 @@ func (x *Exec) formatInt(t *Term, signed bool) Str {
 	return x.ts.StrOf(strconv.Itoa(r))
 }
 
-// formatFloat: the text of a float64 under %v is a fresh symbolic string constrained by
-// the documented round-trip contract parse(format(f)) == f (uninterpreted parse).
+// formatFloat: the text of a float64 under %v is a symbolic numeral ("0", "D", "-D" or
+// "D.D" with non-zero digits) tied to the value by the documented round-trip contract
+// ParseFloat(format(f)) == f (the conversion itself is the uninterpreted pfdec).
 func (x *Exec) formatFloat(f *Term) Str {
 	if f.IsConst() {
 		return x.ts.StrOf(strconv.FormatFloat(math.Float64frombits(f.C), 'g', -1, 64))
 	}
-	for _, ft := range x.floatTexts {
+	return x.symFloatText(f, &x.floatTexts)
+}
+
+func (x *Exec) symFloatText(f *Term, memo *[]floatText) Str {
+	for _, ft := range *memo {
 		if ft.F == f {
 			return ft.S
 		}
 	}
-	// the text is a non-empty string of number characters, functionally determined by f
-	s := x.symString(1, 2, "0123456789.e+-", "fmtfloat")
-	x.floatTexts = append(x.floatTexts, floatText{f, s})
+	ts := x.ts
+	var s Str
+	if x.branch(ts.FCmp(OFEq, f, ts.FP(0)), "float-zero") {
+		s = ts.StrOf("0")
+	} else {
+		d := func() *Term {
+			b := x.fresh("c", SBV8)
+			x.constrainAlpha(b, "123456789")
+			return b
+		}
+		switch x.pick("float-form", 3) {
+		case 0:
+			s = Str{[]*Term{d()}}
+		case 1:
+			s = Str{[]*Term{ts.BV(8, '-'), d()}}
+		default:
+			s = Str{[]*Term{d(), ts.BV(8, '.'), d()}}
+		}
+		r := models["strconv.ParseFloat"](x, nil, nil, []Value{s, ts.BV(64, 64)}).(Tuple)
+		x.addPC(ts.FCmp(OFEq, r[0].(*Term), f))
+	}
+	*memo = append(*memo, floatText{f, s})
 	return s
 }
 
@@ -230,3 +255,6 @@ func (e *Engine) lookupMethodByName(t types.Type, name string) *ssa.Function {
 	}
 	return nil
 }
+
+// ChanV stands for the channel returned by time.After.
+type ChanV struct{}
